@@ -19,7 +19,8 @@
    A call is one model step.  The only thing another task can do to the wrapper while a call is parked in
    receive_stream.receive() that is modelled is feed_data(): `Until d m fs` carries, for each fetch the call makes, the
    data fed during that wait (fs = feeds in fetch order, missing = none); it is appended to the buffer before the
-   fetched chunk, also when the fetch ends in EndOfStream.  (A concurrent second reader shrinking the buffer is not
+   fetched chunk, also when the fetch ends in EndOfStream.  `Receive n fs` likewise (fix F43, /repo commit 767a0e0); feeds during the waits
+   of receive_exactly are not modelled.  (A concurrent second reader shrinking the buffer is not
    modelled.)  CANCELLATION: the C-ops run the call in a cancel scope; k = 0: the call is cancelled at entry, before it
    touched anything (what any implementation that checkpoints first does in an already cancelled scope; HEAD has no
    such checkpoint, the harness uses k = 0 only when the implementation was observed to behave so); k >= 1: the k-th
@@ -35,11 +36,11 @@ Inductive kind := KByte | KObject.
 Record st := mk { knd : kind; buf : list Z; src : list (list Z) }.
 
 Inductive op :=
-| Receive (n : Z)                                   (* await s.receive(n) *)
+| Receive (n : Z) (fs : list (list Z))              (* await s.receive(n); fs = feed_data during its waits *)
 | Exactly (n : Z)                                   (* await s.receive_exactly(n) *)
 | Until (d : list Z) (m : Z) (fs : list (list Z))   (* await s.receive_until(d, m); fs = feed_data during its waits *)
 | Feed (d : list Z)                                 (* s.feed_data(d) between calls *)
-| CReceive (k : nat) (n : Z)                        (* the same calls in a scope that is cancelled: see above *)
+| CReceive (k : nat) (n : Z) (fs : list (list Z))   (* the same calls in a scope that is cancelled: see above *)
 | CExactly (k : nat) (n : Z)
 | CUntil (k : nat) (d : list Z) (m : Z) (fs : list (list Z)).
 
@@ -70,30 +71,38 @@ Definition pull (k : kind) (n : nat) (s : list (list Z)) : option (list Z * list
 (* cn = number (from now) of the fetch that is cancelled, 0 = none *)
 Definition hit (cn : nat) : bool := Nat.eqb cn 1.
 
+(* outcome of the fetch(es) of receive() on an object stream; fed = what feed_data put into the (empty) buffer while
+   the call was waiting, in order *)
 Inductive fres :=
-| FGot (c : list Z) (r : list (list Z))
-| FEnd                                  (* EndOfStream *)
-| FCancel (r : list (list Z)).          (* cancelled while waiting; r = what the wrapped stream still holds *)
+| FGot (c : list Z) (r : list (list Z)) (fed : list Z)
+| FEnd (fed : list Z)                                   (* EndOfStream *)
+| FCancel (r : list (list Z)) (fed : list Z).           (* cancelled while waiting; r = what the wrapped stream still holds *)
 
-(* HEAD, object stream branch of receive(): `chunk = b""; while not chunk: chunk = await receive_stream.receive()` *)
-Fixpoint skip_empty (cn : nat) (s : list (list Z)) : fres :=
-  if hit cn then FCancel s else
+(* HEAD, object stream branch of receive(): `chunk = b""; while not chunk: chunk = await receive_stream.receive()`;
+   every fetch may be accompanied by a feed_data from another task (fs, one entry per fetch) *)
+Fixpoint skip_empty (cn : nat) (s : list (list Z)) (fs : list (list Z)) (acc : list Z) : fres :=
+  if hit cn then FCancel s acc else
+  let a := acc ++ hd [] fs in
   match s with
-  | [] => FEnd
-  | c :: r => match c with [] => skip_empty (pred cn) r | _ :: _ => FGot c r end
+  | [] => FEnd a
+  | c :: r => match c with [] => skip_empty (pred cn) r (tl fs) a | _ :: _ => FGot c r a end
   end.
 
 (* the pinned tree: a single receive() *)
-Definition one_item (cn : nat) (s : list (list Z)) : fres :=
-  if hit cn then FCancel s else
-  match s with [] => FEnd | c :: r => FGot c r end.
+Definition one_item (cn : nat) (s : list (list Z)) (fs : list (list Z)) : fres :=
+  if hit cn then FCancel s [] else
+  match s with [] => FEnd (hd [] fs) | c :: r => FGot c r (hd [] fs) end.
 
 (* Python slice bound: b[:n] = firstn (cut n b) b and `del b[:n]` leaves skipn (cut n b) b, also for n < 0 *)
 Definition cut (n : Z) (l : list Z) : nat :=
   if (0 <=? n)%Z then Z.to_nat n else Z.to_nat (Z.of_nat (length l) + n).
 
 (* ---- receive (lines 67-95).  Result: new state, outcome, arrival log ---- *)
-Definition do_receive (p : bool) (cn : nat) (s : st) (n : Z) : st * res * list Z :=
+(* The arrival log of a receive() that had to wait is `item ++ fed`: the call was parked on an EMPTY buffer before the
+   feed, so the item it was waiting for takes precedence - HEAD hands out its head, puts its surplus in FRONT of the
+   fed data (`self._buffer[:0] = chunk[max_bytes:]`, fix F43, /repo commit 767a0e0) and the fed data follows the complete item.  The pinned
+   tree appended the surplus BEHIND the fed data, tearing the item apart. *)
+Definition do_receive (p : bool) (cn : nat) (s : st) (n : Z) (fs : list (list Z)) : st * res * list Z :=
   if (n <? 1)%Z then (s, RValueError, []) else
   match buf s with
   | _ :: _ =>                                            (* served from the buffer: no await at all *)
@@ -102,18 +111,21 @@ Definition do_receive (p : bool) (cn : nat) (s : st) (n : Z) : st * res * list Z
       match knd s with
       | KByte =>
           if hit cn then (s, RCancelled, []) else
+          let fd := hd [] fs in
           match pull KByte (Z.to_nat n) (src s) with
-          | None => (s, REnd, [])
-          | Some (c, r) => (mk (knd s) (buf s) r, RBytes c, c)
+          | None => (mk (knd s) (buf s ++ fd) (src s), REnd, fd)
+          | Some (c, r) => (mk (knd s) (buf s ++ fd) r, RBytes c, c ++ fd)
           end
       | KObject =>
-          match (if p then one_item cn (src s) else skip_empty cn (src s)) with
-          | FEnd => (mk (knd s) (buf s) [], REnd, [])       (* every (empty) item left was consumed *)
-          | FCancel r => (mk (knd s) (buf s) r, RCancelled, [])
-          | FGot c r =>
+          match (if p then one_item cn (src s) fs else skip_empty cn (src s) fs []) with
+          | FEnd fed => (mk (knd s) (buf s ++ fed) [], REnd, fed)       (* every (empty) item left was consumed *)
+          | FCancel r fed => (mk (knd s) (buf s ++ fed) r, RCancelled, fed)
+          | FGot c r fed =>
               if (n <? Z.of_nat (length c))%Z
-              then (mk (knd s) (buf s ++ skipn (Z.to_nat n) c) r, RBytes (firstn (Z.to_nat n) c), c)
-              else (mk (knd s) (buf s) r, RBytes c, c)
+              then (mk (knd s) (if p then (buf s ++ fed) ++ skipn (Z.to_nat n) c
+                                else skipn (Z.to_nat n) c ++ (buf s ++ fed)) r,
+                    RBytes (firstn (Z.to_nat n) c), c ++ fed)
+              else (mk (knd s) (buf s ++ fed) r, RBytes c, c ++ fed)
           end
       end
   end.
@@ -190,11 +202,11 @@ Fixpoint until_loop (p : bool) (fuel : nat) (cn : nat) (s : st) (d : list Z) (m 
 
 Definition step_gen (p : bool) (s : st) (o : op) : st * res * list Z :=
   match o with
-  | Receive n => do_receive p 0 s n
+  | Receive n fs => do_receive p 0 s n fs
   | Exactly n => do_exactly p 0 s n
   | Until d m fs => until_loop p (fuel_of s) 0 s d m 0 fs
   | Feed d => (mk (knd s) (buf s ++ d) (src s), RNone, d)
-  | CReceive k n => match k with O => (s, RCancelled, []) | _ => do_receive p k s n end
+  | CReceive k n fs => match k with O => (s, RCancelled, []) | _ => do_receive p k s n fs end
   | CExactly k n => match k with O => (s, RCancelled, []) | _ => do_exactly p k s n end
   | CUntil k d m fs => match k with O => (s, RCancelled, []) | _ => until_loop p (fuel_of s) k s d m 0 fs end
   end.
@@ -274,7 +286,7 @@ Fixpoint arrived_run (s : st) (ops : list op) : list Z :=
 Definition no_feed (o : op) : bool :=
   match o with
   | Feed _ => false
-  | Until _ _ fs | CUntil _ _ _ fs => match fs with [] => true | _ => false end
+  | Receive _ fs | CReceive _ _ fs | Until _ _ fs | CUntil _ _ _ fs => match fs with [] => true | _ => false end
   | _ => true
   end.
 Definition chunks_nonempty (l : list (list Z)) : Prop := forall c, In c l -> c <> [].
@@ -292,6 +304,7 @@ Definition observe (s : st) (r : res) : list Z :=
 (* ---- codec: case = kind :: nchunks :: (len :: bytes)* :: ops
         op = 0 n | 1 n | 2 m len delimiter-bytes | 3 len bytes | 4 m len delimiter-bytes nfeeds (len :: bytes)*
            | 5 k n | 6 k n | 7 k m len delimiter-bytes nfeeds (len :: bytes)*   (cancelled receive / exactly / until)
+           | 8 n nfeeds (len :: bytes)* | 9 k n nfeeds (len :: bytes)*          (receive with feeds during its waits)
         (op 2 = receive_until without feeds during the call; cases written before ops 4-7 existed decode unchanged) ---- *)
 Definition take_list (l : list Z) : list Z * list Z :=
   match l with
@@ -311,7 +324,7 @@ Fixpoint decode_ops (fuel : nat) (l : list Z) : list op :=
   | O => []
   | S f =>
       match l with
-      | 0%Z :: n :: r => Receive n :: decode_ops f r
+      | 0%Z :: n :: r => Receive n [] :: decode_ops f r
       | 1%Z :: n :: r => Exactly n :: decode_ops f r
       | 2%Z :: m :: r => let '(d, r') := take_list r in Until d m [] :: decode_ops f r'
       | 3%Z :: r => let '(d, r') := take_list r in Feed d :: decode_ops f r'
@@ -321,7 +334,7 @@ Fixpoint decode_ops (fuel : nat) (l : list Z) : list op :=
           | nf :: r'' => let '(fs, r3) := decode_chunks (zn nf) r'' in Until d m fs :: decode_ops f r3
           | [] => []
           end
-      | 5%Z :: k :: n :: r => CReceive (zn k) n :: decode_ops f r
+      | 5%Z :: k :: n :: r => CReceive (zn k) n [] :: decode_ops f r
       | 6%Z :: k :: n :: r => CExactly (zn k) n :: decode_ops f r
       | 7%Z :: k :: m :: r =>
           let '(d, r') := take_list r in
@@ -329,6 +342,8 @@ Fixpoint decode_ops (fuel : nat) (l : list Z) : list op :=
           | nf :: r'' => let '(fs, r3) := decode_chunks (zn nf) r'' in CUntil (zn k) d m fs :: decode_ops f r3
           | [] => []
           end
+      | 8%Z :: n :: nf :: r => let '(fs, r3) := decode_chunks (zn nf) r in Receive n fs :: decode_ops f r3
+      | 9%Z :: k :: n :: nf :: r => let '(fs, r3) := decode_chunks (zn nf) r in CReceive (zn k) n fs :: decode_ops f r3
       | _ => []
       end
   end.
